@@ -338,6 +338,7 @@ Proof.
   - injection H as <-. exact W.
   - unfold add_computed_value, bind in H. inv_guard H. injection H as <-. exact W.
   - unfold finalize, bind in H. inv_guard H. injection H as <-. exact W.
+  - injection H as <-. exact W.
 Qed.
 
 Theorem wo_build t0 t1 h comps inf ops m : build_ok t0 t1 h comps inf ops = Some m -> well_ordered (m_requests m).
